@@ -39,7 +39,11 @@ where
     }
 
     fn responses(self, frames: Vec<Frame>) -> Result<Self::Response, TypedResponseError> {
-        assert_eq!(self.len(), frames.len());
+        // The number of frames is decided by the server, a mismatch is an invalid response
+        if self.len() != frames.len() {
+            return Err(TypedResponseError::other());
+        }
+
         let mut out = Vec::with_capacity(self.len());
 
         for (command, frame) in self.into_iter().zip(frames) {
@@ -75,10 +79,11 @@ macro_rules! impl_command_list_tuple {
             fn responses(self, frames: Vec<Frame>) -> Result<Self::Response, TypedResponseError> {
                 let mut frames = frames.into_iter();
 
+                // The number of frames is decided by the server, too few are an invalid response
                 Ok((
-                    self.0.response(frames.next().unwrap())?,
+                    self.0.response(frames.next().ok_or_else(TypedResponseError::other)?)?,
                     $(
-                        self.$further_idx.response(frames.next().unwrap())?,
+                        self.$further_idx.response(frames.next().ok_or_else(TypedResponseError::other)?)?,
                     )*
                 ))
             }
